@@ -438,6 +438,9 @@ class SInt:
         return self._rmul(o)
 
     def __truediv__(self, o):
+        v = z3.simplify(self.e)
+        if z3.is_bv_value(v) and isinstance(o, (int, float)):
+            return v.as_signed_long() / o        # constant: plain Python
         raise NotImplementedError("true division of a symbolic int")
 
     def _c(op):
